@@ -6,6 +6,8 @@ import (
 	"bytes"
 	"sort"
 
+	"github.com/decred/dcrd/dcrec/secp256k1/v4"
+
 	storetypes "cosmossdk.io/store/types"
 
 	sdk "github.com/cosmos/cosmos-sdk/types"
@@ -364,7 +366,7 @@ func VerifC10SubmitSignature() {
 	sid := tss.SigningID(1 + vs.Pick("req_signing", len(st.sigs)+1)) // one past the end: unknown signing
 	mid := tss.MemberID(1 + vs.Pick("req_member", st.n+1))           // one past the end: not a member
 	otherSigner := vs.Pick("req_signer_is_someone_else", 2) == 1
-	kind := 0 // 0 honest, 1 wrong s, 2 wrong R
+	kind := 0 // 0 honest, 1 wrong s, 2 wrong R, 3 the reflected share (-R, -k + c*lambda*x)
 
 	sg := st.sig(sid)
 	var a *c10Att
@@ -385,7 +387,7 @@ func VerifC10SubmitSignature() {
 	}
 	share := tss.Signature(c10Dummy65)
 	if j >= 0 {
-		kind = vs.Pick("req_share", 3)
+		kind = vs.Pick("req_share", 4)
 		share = c10HonestShare(st, sg, a, j)
 		delta := c10Scalar("delta")
 		var err error
@@ -397,6 +399,13 @@ func VerifC10SubmitSignature() {
 			r, rerr := tss.SumPoints(share.R(), delta.Point())
 			vs.Assume(rerr == nil && r.Validate() == nil)
 			share, err = tss.NewSignatureFromComponents(r, share.S())
+			vs.Assume(err == nil)
+		case 3:
+			// the share for the negated nonce point: R' = (-k)G has the x coordinate of the assigned nonce and the
+			// other parity, s' = s - 2k answers it. Computed from the real values, so that a counterexample does
+			// not depend on the solver's choice of hash outputs.
+			negK := c10NegScalar(a.privNonce[j])
+			share, err = tss.NewSignatureFromComponents(negK.Point(), tss.SumScalars(share.S(), negK, negK))
 			vs.Assume(err == nil)
 		}
 	}
@@ -433,6 +442,8 @@ func VerifC10SubmitSignature() {
 			vs.Reach("rejected-wrong-s", true)
 		case kind == 2:
 			vs.Reach("rejected-wrong-r", true)
+		case kind == 3:
+			vs.Reach("rejected-reflected-share", true)
 		}
 	}
 	c10Check(e, st, nil)
@@ -655,4 +666,12 @@ func VerifC10FailedSigning() {
 	sp.fail(sg)
 	c10Check(e, st, sp.calls)
 	vs.Reach("fallen", true)
+}
+
+// c10NegScalar returns -a mod n.
+func c10NegScalar(a tss.Scalar) tss.Scalar {
+	var x secp256k1.ModNScalar
+	x.SetByteSlice(a)
+	x.Negate()
+	return tss.NewScalarFromModNScalar(&x)
 }
